@@ -2,7 +2,6 @@ package client
 
 import (
 	"context"
-	"errors"
 	"fmt"
 	"net"
 
@@ -86,7 +85,10 @@ func (l *listener) AcceptWithContext(ctx context.Context) (net.Conn, error) {
 			return nil, ctx.Err()
 		}
 
-		if errors.Is(err, yamux.ErrSessionShutdown) || errors.Is(err, net.ErrClosed) {
+		// If the listener has been closed locally (Close or Shutdown) then
+		// return. Otherwise the connection was dropped or closed by the
+		// server (which is also reported as a session shutdown) so reconnect.
+		if l.closeCtx.Err() != nil {
 			return nil, ErrClosed
 		}
 
